@@ -574,6 +574,10 @@ func (e *Engine) applyContract(fr *Frame, st *State, reach Term, fc *FuncContrac
 		}
 	}
 	old := st.clone()
+	wmBefore := e.watermark()
+	if !fc.Pure || len(fc.Fresh) > 0 {
+		wmBefore = e.bumpWatermark()
+	}
 	// arguments escape
 	e.exposing = true
 	for _, a := range args {
@@ -642,7 +646,7 @@ func (e *Engine) applyContract(fr *Frame, st *State, reach Term, fc *FuncContrac
 		st.havocPrefix(fcs, true)
 		keep := func(name string, old, nw Term) {
 			if nw.S != old.S && strings.HasPrefix(string(nw.Sort), "(Array") {
-				e.assumes = append(e.assumes, T(SBool, "(forall ((fr Int)) (! (=> (<= fr (+ alloc0 1000000)) (= (select %s fr) (select %s fr))) :pattern ((select %s fr))))", nw, old, nw))
+				e.assumes = append(e.assumes, T(SBool, "(forall ((fr Int)) (! (=> (<= fr %s) (= (select %s fr) (select %s fr))) :pattern ((select %s fr))))", wmBefore, nw, old, nw))
 			}
 		}
 		for name, old := range before.heap {
@@ -795,6 +799,7 @@ func (e *Engine) applyContract(fr *Frame, st *State, reach Term, fc *FuncContrac
 		env.old = old
 		env.pkg = pkgOfID(fc.ID)
 		env.callSite = true
+		e.wmCall = wmBefore
 		c, err := env.evalBool(en.E)
 		if err != nil {
 			e.contractError(en, err)
